@@ -1454,6 +1454,13 @@ class SyncObj(object):
             elif len(data) > 4:
                 self.__enabledCodeVersion = data[4]
 
+            if not clearJournal:
+                # The dump may be newer than the head of the journal (killed after the dump was
+                # written and before the journal was trimmed): drop only what the dump covers.
+                dumpEntries = self.__getEntries(data[2][1], 2)
+                if len(dumpEntries) == 2 and dumpEntries[0] == data[2] and dumpEntries[1] == data[1]:
+                    self.__deleteEntriesTo(data[2][1])
+
             if clearJournal or \
                     len(self.__raftLog) < 2 or \
                     self.__raftLog[0] != data[2] or \
